@@ -24,6 +24,7 @@ type set struct {
 // IPSet is the strict ipset fake.
 type IPSet struct {
 	mu      sync.Mutex
+	rmu     sync.Mutex // guards Rejects (reject is called with and without mu held)
 	sets    map[string]*set
 	ipt     *IPTables
 	Rejects []Rejected
@@ -39,7 +40,9 @@ func (s *IPSet) exists(name string) bool {
 }
 
 func (s *IPSet) reject(op, text string, err error) error {
+	s.rmu.Lock()
 	s.Rejects = append(s.Rejects, Rejected{Op: op, Text: text, Err: err.Error()})
+	s.rmu.Unlock()
 	return err
 }
 
